@@ -437,3 +437,56 @@ Proof.
   intros. unfold pipe_eval, pipe_wmc.
   apply (PL.C10.ProofsWMC.checked_eval_is_wmc_cnf ModelOracle.QcOps PL.C10.ProofsInstances.QcOps_laws); auto.
 Qed.
+
+(* ------------------------------------------------------------------ conditioning by weights *)
+Lemma wcond_ssum : forall n ks w (psi : (nat -> bool) -> Qc) a,
+    forallb (lit_key n) ks = true ->
+    ssum Nat.eqb (wcond w ks) (seq 1 n) psi a
+    = ssum Nat.eqb w (seq 1 n) (fun m => b2q (holds m ks) * psi m) a.
+Proof.
+  intros n. induction ks as [|k r IH]; intros w psi a H.
+  - simpl. apply ssum_ext. apply Nat_eqb_spec. intros m. unfold b2q. ring.
+  - simpl in H. apply andb_true_iff in H. destruct H as [Hk Hr].
+    change (wcond w (k :: r)) with (wcond (wcond1 w k) r). rewrite IH by auto.
+    assert (INV : forall p, (Pos.to_nat p <=? n) = true -> In (Pos.to_nat p) (seq 1 n)).
+    { intros p L. apply Nat.leb_le in L. apply in_seq. assert (0 < Pos.to_nat p)%nat by apply Pos2Nat.is_pos. lia. }
+    destruct k as [[|p|p]|]; simpl in Hk.
+    + simpl wcond1. apply ssum_ext. apply Nat_eqb_spec. intros m. reflexivity.
+    + simpl wcond1. change false with (negb true).
+      rewrite (ssum_condition Nat.eqb Nat_eqb_spec); auto. 2: apply seq_NoDup.
+      apply ssum_ext. apply Nat_eqb_spec. intros m. unfold holds. simpl.
+      destruct (m (Pos.to_nat p)); cbn [Bool.eqb andb b2q]; ring.
+    + simpl wcond1. change true with (negb false) at 1.
+      rewrite (ssum_condition Nat.eqb Nat_eqb_spec); auto. 2: apply seq_NoDup.
+      apply ssum_ext. apply Nat_eqb_spec. intros m. unfold holds. simpl.
+      destruct (m (Pos.to_nat p)); cbn [Bool.eqb andb negb b2q]; ring.
+    + discriminate.
+Qed.
+
+Theorem pipe_wmc_w_correct : forall P D ks,
+    forallb (lit_key (length D)) ks = true -> pipe_wmc_w P D ks = pipe_wmc P D ks.
+Proof.
+  intros P D ks H. unfold pipe_wmc_w, pipe_wmc, ModelCircuit.wmc_cnf, ModelCircuit.var_list.
+  rewrite !wmc_ssum. rewrite wcond_ssum by auto.
+  apply ssum_ext. apply Nat_eqb_spec. intros m. unfold cond_cnf. rewrite sat_app, units_sat.
+  rewrite b2q_andb. ring.
+Qed.
+
+Lemma circuit_is_count_w : forall P D ks C,
+    ModelCircuit.check_ddnnf (length D) C (clark_cnf P D) = true -> pipe_eval_w P D ks C = pipe_wmc_w P D ks.
+Proof.
+  intros. unfold pipe_eval_w, pipe_wmc_w.
+  apply (PL.C10.ProofsWMC.checked_eval_is_wmc_cnf ModelOracle.QcOps PL.C10.ProofsInstances.QcOps_laws); auto.
+Qed.
+
+(* the evaluator with one checked circuit computes the pipeline's answer *)
+Theorem evaluator_is_pipeline : forall tc use_memo P q e C D kq kes,
+    break_cycles_m tc use_memo (wp_graph P) (ai_of P) [q] e = Some (D, [kq], kes) ->
+    ModelCircuit.check_ddnnf (length D) C (clark_cnf P D) = true ->
+    forallb (lit_key (length D)) (kq :: kes) = true ->
+    evaluator tc use_memo P q e C = pipeline tc use_memo P q e.
+Proof.
+  intros tc um P q e C D kq kes BC CK LK. unfold evaluator, pipeline. rewrite BC.
+  assert (LK2 : forallb (lit_key (length D)) kes = true). { simpl in LK. apply andb_true_iff in LK. tauto. }
+  rewrite !circuit_is_count_w by auto. rewrite !pipe_wmc_w_correct by auto. reflexivity.
+Qed.
